@@ -580,6 +580,294 @@ def _run(cases, with_model=True):
 
 
 # --------------------------------------------------------------------------
+# cookie stage: the REAL CookieJar + wpull.cookie.DeFactoCookiePolicy + CookieJarWrapper shared by a sequence
+# of fetches over related / unrelated hosts; Set-Cookie with every Domain shape; RFC 6265 5.3/5.4 on the bytes
+# --------------------------------------------------------------------------
+CK_GROUPS = [
+    ['x.test', 'a.x.test', 'b.x.test', 's.a.x.test', 'c.test', 'ax.test'],
+    ['x.test', 'a.x.test', 'b.x.test', 'c.test', 'test'],
+    ['alpha', 'beta', 'alpha.beta', 'local', 'x.local'],
+    ['10.1.2.3', '9.1.2.3', '110.1.2.3', '2.3.4.5'],
+    ['a.co.uk', 'b.co.uk', 'www.a.co.uk', 'co.uk', 'a.uk'],
+    ['[::1]', '[2001:db8::7]', 'a.x.test', '10.1.2.3'],
+    ['a.x.test', 'A.X.test', 'b.x.test', 'xn--bcher-kva.test', 'b\u00fccher.test'],
+]
+CK_CODES = [301, 302, 303, 307, 308]
+CK_PATH_ATTR = [None, None, '/', '/dir', '/dir/', 'nopath', '/dir/x']
+CK_REQ_PATHS = ['/', '/dir/x', '/dirx', '/other', '/dir/', '/dir']
+
+
+def _bare(h):
+    return h[1:-1] if h.startswith('[') else h
+
+
+def _domain_shapes(r, host, pool):
+    """Domain attribute values (None = absent) relative to the setting host"""
+    h = _bare(host).lower()
+    labels = h.split('.')
+    shapes = [None, None, h, '.' + h, h.upper()]
+    if len(labels) > 1:
+        parent = '.'.join(labels[1:])
+        shapes += [parent, '.' + parent, labels[-1], '.' + labels[-1], '.'.join(labels[-2:]), '.' + '.'.join(labels[-2:])]
+    shapes += ['sub.' + h, 'local', '.local', '', 'evil.example', 'co.uk', 'test', '.test']
+    other = _bare(r.choice(pool)).lower()
+    shapes += [other, '.' + other]
+    if ':' in h:
+        shapes += ['[%s]' % h, '::1']
+    return shapes
+
+
+def gen_cookie_scenario(r, idx):
+    pool = list(r.choice(CK_GROUPS))
+    if r.random() < 0.25:
+        pool += r.choice(CK_GROUPS)
+    counter = [0]
+
+    def setcookies(host):
+        out = []
+        for _ in range(r.choice([0, 1, 1, 2, 3])):
+            counter[0] += 1
+            sc = 'k%dx%d=v%d' % (idx, counter[0], counter[0])
+            d = r.choice(_domain_shapes(r, host, pool))
+            if d is not None:
+                sc += '; Domain=%s' % d
+            p = r.choice(CK_PATH_ATTR)
+            if p is not None:
+                sc += '; Path=%s' % p
+            if r.random() < 0.1:
+                sc += '; Secure'
+            if r.random() < 0.1:
+                sc += r.choice(['; Max-Age=3600', '; HttpOnly', '; Version=1', '; Expires=Wed, 09 Jun 2038 10:18:14 GMT'])
+            out.append(sc)
+        return out
+
+    fetches = []
+    for _ in range(r.choice([3, 4, 5, 6])):
+        host = r.choice(pool)
+        scheme = 'https' if r.random() < 0.15 else 'http'
+        port = r.choice(['', '', '', ':8080'])
+        url = '%s://%s%s%s' % (scheme, host, port, r.choice(CK_REQ_PATHS))
+        resp = []
+        cur = host
+        for _ in range(r.choice([0, 0, 1, 1, 2])):
+            nxt = r.choice(pool)
+            resp.append({'status': r.choice(CK_CODES), 'set_cookie': setcookies(cur),
+                         'location': '%s://%s%s%s' % (r.choice(['http', 'http', 'https']), nxt, r.choice(['', ':8080']),
+                                                     r.choice(CK_REQ_PATHS))})
+            cur = nxt
+        resp.append({'status': 200, 'set_cookie': setcookies(cur)})
+        fetches.append({'url': url, 'responses': resp})
+    return {'fetches': fetches}
+
+
+def cookie_seed_scenarios():
+    def one(a, sc, b, code=None):
+        f = [{'url': 'http://%s/' % a, 'responses': [{'status': 200, 'set_cookie': [sc]}]}]
+        if code:
+            f.append({'url': 'http://%s/go' % a, 'responses': [{'status': code, 'location': 'http://%s/t' % b, 'set_cookie': []},
+                                                            {'status': 200, 'set_cookie': []}]})
+        else:
+            f.append({'url': 'http://%s/t' % b, 'responses': [{'status': 200, 'set_cookie': []}]})
+        return {'fetches': f}
+    return [
+        one('a.x.test', 'ks1=v; Domain=test; Path=/', 'c.test'),            # TLD
+        one('a.x.test', 'ks2=v; Domain=.test', 'c.test', 307),
+        one('a.x.test', 'ks3=v; Domain=x.test', 'b.x.test', 308),           # legitimate: parent domain, sibling
+        one('a.x.test', 'ks4=v', 's.a.x.test'),                            # host-only -> subdomain
+        one('a.x.test', 'ks5=v; Domain=b.x.test', 'b.x.test'),             # sibling domain
+        one('alpha', 'ks6=v; Domain=local', 'beta'),                       # dotless host, pseudo TLD
+        one('alpha', 'ks7=v; Domain=.local', 'beta', 302),
+        one('10.1.2.3', 'ks8=v; Domain=.1.2.3', '9.1.2.3'),                # IP suffix
+        one('a.co.uk', 'ks9=v; Domain=co.uk', 'b.co.uk'),                  # public suffix (allowed by the predicate)
+        one('a.x.test', 'ks10=v; Domain=c.test', 'c.test', 301),           # unrelated domain
+        one('x.test', 'ks11=v', 'ax.test'),                                # suffix without label boundary
+        one('a.x.test', 'ks12=v; Domain=a.x.test', 'a.x.test'),            # exact host
+        # wpull's own limits: 50 cookies and 4100 characters per domain, ASCII only
+        {'fetches': [{'url': 'http://lim.x.test/', 'responses': [{'status': 200, 'set_cookie': ['kl%d=v' % i for i in range(30)]}]},
+                     {'url': 'http://lim.x.test/', 'responses': [{'status': 200, 'set_cookie': ['kl%d=w' % i for i in range(20, 56)]}]},
+                     {'url': 'http://big.x.test/', 'responses': [{'status': 200, 'set_cookie': ['kb1=' + 'a' * 2000, 'kb2=' + 'b' * 2000,
+                                                                                               'kb3=' + 'c' * 200, 'kb4=caf\u00e9']}]},
+                     {'url': 'http://lim.x.test/x', 'responses': [{'status': 200, 'set_cookie': []}]},
+                     {'url': 'http://big.x.test/x', 'responses': [{'status': 200, 'set_cookie': []}]}]},
+    ]
+
+
+def _is_ip(h):
+    return ':' in h or h.rsplit('.', 1)[-1].isdigit()
+
+
+def _domain_match(h, d):
+    """RFC 6265 5.1.3"""
+    return h == d or (h.endswith('.' + d) and not _is_ip(h))
+
+
+def cookie_may_travel(a, dattr, b):
+    """RFC 6265 5.3 steps 4-6 + 5.4: cookie set by host a with Domain attribute dattr (None/'' = absent) sent to host b"""
+    if not dattr or dattr == '.':
+        return a == b
+    d = dattr.lower()
+    if d.startswith('.'):
+        d = d[1:]
+    if d.startswith('[') and d.endswith(']'):
+        d = d[1:-1]
+    if not (_domain_match(a, d) and _domain_match(b, d)):
+        return False
+    if '.' not in d and ':' not in d:
+        return d == a == b            # a single label (TLD, 'local', intranet name) is never a domain for other hosts
+    return True
+
+
+def _parse_set_cookie(sc):
+    parts = [p.strip() for p in sc.split(';')]
+    name = parts[0].partition('=')[0].strip()
+    dom = None
+    for p in parts[1:]:
+        k, _, v = p.partition('=')
+        if k.strip().lower() == 'domain':
+            dom = v.strip()
+    return name, dom
+
+
+def check_cookie_scenario(sc, res):
+    """-> (violations, number of cookies sent, number sent to a host other than the setter)"""
+    out, sent_n, cross_n = [], 0, 0
+    sets = {}
+    for ev in res.get('events', []):
+        if 'host' not in ev:
+            continue
+        b = ev['host']
+        if ev.get('sent'):
+            head = bytes.fromhex(ev['sent'])
+            probs, method, target, version, fields = parse_wire(head)
+            for n, v in fields:
+                if n.lower() != b'cookie':
+                    continue
+                for pair in v.decode('latin-1').split(';'):
+                    name = pair.strip().partition('=')[0]
+                    if not name:
+                        continue
+                    sent_n += 1
+                    if name not in sets:
+                        out.append(('cookie_foreign', 'cookie %r sent to %s was never set' % (name, b)))
+                        continue
+                    a, dattr = sets[name]
+                    if a != b:
+                        cross_n += 1
+                    if not cookie_may_travel(a, dattr, b):
+                        kind = 'local-alias' if not dattr and (a == b + '.local' or b == a + '.local') else \
+                            'host-only' if not dattr else ('single-label-domain' if '.' not in dattr.strip('.') and ':' not in dattr else
+                                                               'ip-domain' if _is_ip(a) or _is_ip(b) else 'domain-mismatch')
+                        out.append(('cookie_cross_host/' + kind, 'cookie %s set by %s (Domain=%s) sent to %s' % (name, a, dattr, b)))
+        for s in ev.get('set_cookie', []):
+            if ev.get('sent') and not ev.get('error'):
+                name, dom = _parse_set_cookie(s)
+                sets[name] = (ev['host'], dom)
+    return out, sent_n, cross_n
+
+
+def _cookie_stage(ctx, n):
+    r = common.rng('c16-cookies')
+    scenarios = cookie_seed_scenarios() + [gen_cookie_scenario(r, i) for i in range(n)]
+    chunks = [scenarios[i:i + 100] for i in range(0, len(scenarios), 100)]
+    outs = common.run_impl_sharded('c16_cookie_impl.py', [{'cases': c} for c in chunks])
+    results = [x for o in outs for x in o['results']]
+    viol, dis = [], []
+    stats = {'scenarios': len(scenarios), 'requests': 0, 'set_cookie_fields': 0, 'cookies_sent': 0,
+             'cookies_sent_to_other_host_legitimately': 0, 'scenarios_with_cookie_to_other_host': 0,
+             'policy_set_ok_calls': 0, 'policy_set_ok_accepted': 0}
+    for sc, res in zip(scenarios, results):
+        if 'driver_error' in res:
+            dis.append({'note': 'cookie stage driver error', 'error': res['driver_error'], 'tb': res.get('tb'), 'case': {'cookie_scenario': sc}})
+            continue
+        vs, sent_n, cross_n = check_cookie_scenario(sc, res)
+        stats['requests'] += sum(1 for e in res['events'] if e.get('sent'))
+        stats['set_cookie_fields'] += sum(len(e.get('set_cookie', [])) for e in res['events'])
+        stats['cookies_sent'] += sent_n
+        stats['cookies_sent_to_other_host_legitimately'] += cross_n - sum(1 for w, _ in vs if w.startswith('cookie_cross_host'))
+        stats['scenarios_with_cookie_to_other_host'] += 1 if cross_n else 0
+        for t in res.get('trace', []):
+            if t['op'] == 'set_ok':
+                stats['policy_set_ok_calls'] += 1
+                stats['policy_set_ok_accepted'] += 1 if t['verdict'] else 0
+        seen = set()
+        for why, detail in vs:
+            if why in seen:
+                continue
+            seen.add(why)
+            viol.append({'why': why, 'hop': 0, 'hop_kind': 'cookie-jar', 'detail': detail, 'case': {'cookie_scenario': sc}})
+    dis += _cookie_policy_model(results, stats, 600 if n <= 1000 else 6000)
+    return scenarios, results, viol, dis, stats
+
+
+COOKIE_HEADER = '''From Coq Require Import List NArith Bool String.
+From Wpull Require Import Lib.Hex Model.HttpReq Model.CookiePolicy.
+Import ListNotations.
+Open Scope string_scope.
+Open Scope N_scope.
+Definition h := unhex6.
+'''
+
+
+def _ascii(*xs):
+    return all(x is None or all(ord(ch) < 128 for ch in x) for x in xs)
+
+
+def _cookie_policy_model(results, stats, max_set_ok=600):
+    """evaluate Model/CookiePolicy.v on every distinct domain decision wpull's policy took (and on up to max_set_ok
+    distinct set_ok decisions: names are unique, so every one is distinct), compare the verdicts"""
+    seen, terms, keys = set(), [], []
+    skipped = 0
+    n_set_ok = 0
+    for res in results:
+        for t in res.get('trace', []):
+            if t['op'] in ('set_ok_domain', 'return_ok_domain'):
+                key = (t['op'], t['domain'], t['domain_specified'], t['host'], t['std'], t['verdict'])
+                if key in seen:
+                    continue
+                seen.add(key)
+                if not _ascii(t['domain'], t['host']):
+                    skipped += 1
+                    continue
+                fn = 'wp_set_ok_domain' if t['op'] == 'set_ok_domain' else 'wp_return_ok_domain'
+                terms.append('Bool.eqb (%s %s (%s) %s (%s)) %s' % (fn, coq_bool(t['std']), h6(t['domain']),
+                                                                  coq_bool(t['domain_specified']), h6(t['host']), coq_bool(t['verdict'])))
+                keys.append(key)
+            elif t['op'] == 'set_ok':
+                val = t['value'] or ''
+                key = ('set_ok', t['parent_ok'], t['jar_length'], t['jar_count'], t['present'], t['path'], t['name'], val,
+                       t['text'], t['verdict'])
+                if key in seen:
+                    continue
+                seen.add(key)
+                if t['jar_length'] < 0 or not _ascii(t['path'], t['name'], val) or any(ord(c) > 0x10FFFF for c in t['text']):
+                    skipped += 1
+                    continue
+                # keep every refusal by wpull's own code, sample the rest
+                if n_set_ok >= max_set_ok and not (t['parent_ok'] and not t['verdict']):
+                    continue
+                n_set_ok += 1
+                terms.append('Bool.eqb (wp_set_ok %s %d %d %s (%s) (%s) (%s) (%s)) %s' % (
+                    coq_bool(t['parent_ok']), t['jar_length'], t['jar_count'], coq_bool(t['present']), h6(t['path']), h6(t['name']),
+                    h6(val), h6(t['text']), coq_bool(t['verdict'])))
+                keys.append(key)
+    stats['policy_decisions_evaluated_in_coq'] = len(terms)
+    stats['policy_decisions_skipped_non_ascii'] = skipped
+    stats['policy_domain_refusals_by_wpull_code'] = sum(1 for k in keys if k[0] != 'set_ok' and k[4] and not k[5])
+    per = 400
+    bodies = [COOKIE_HEADER + 'Definition checks : list bool := [\n  ' + ';\n  '.join(terms[i:i + per]) +
+              '].\nEval vm_compute in (failing checks).\n' for i in range(0, len(terms), per)]
+    dis = []
+    for bi, (rc, out) in enumerate(common.coq_eval_many(bodies)):
+        fails = common.parse_vm_list(out) if rc == 0 else None
+        if fails is None:
+            dis.append({'shard': bi, 'coq_error': out[-800:], 'note': 'cookie policy model evaluation failed'})
+            continue
+        for f in fails:
+            dis.append({'note': 'wpull cookie policy decision differs from Model/CookiePolicy.v', 'decision': list(keys[bi * per + int(f)])})
+    return dis
+
+
+# --------------------------------------------------------------------------
 # end to end: the real application over real sockets against the scripted site server
 # (what the harness server receives), cross-host redirects over all five codes
 # --------------------------------------------------------------------------
@@ -590,7 +878,9 @@ E2E_HOST_OF_PATH = {'/': 'h1', '/go': 'h1', '/land': 'h2', '/deep': 'h2'}
 def _e2e_spec(ctx, code, variant):
     from harness.fakes import crawl
     site = {'h1': {'/': {'body': crawl.html(links=['/go']), 'headers': {'Set-Cookie': 'sid=S1; Path=/'}},
-                   '/go': {'status': code, 'location': 'http://h2:{PORT}/land'}, '/robots.txt': {'status': 404}},
+                   # the redirect also tries to plant a cookie for every dot-less host (the jar works with "h1.local")
+                   '/go': {'status': code, 'location': 'http://h2:{PORT}/land',
+                           'headers': {'Set-Cookie': 'dl=D1; Domain=local; Path=/'}}, '/robots.txt': {'status': 404}},
             'h2': {'/land': {'body': crawl.html(links=['/deep'])}, '/deep': {'body': 'leaf'},
                    '/robots.txt': {'status': 404}}}
     args = ['http://u1:p1@h1:{PORT}/', '-r', '-l', '4', '--span-hosts', '--no-robots', '--tries', '1']
@@ -618,6 +908,8 @@ def _e2e_check(code, variant, r):
             saw_h2 = True
             if 'sid=S1' in (h.get('cookie') or ''):
                 out.append(('cross_host_state', 'cookie of h1 sent to h2 (%s)' % q['path']))
+            if 'dl=D1' in (h.get('cookie') or ''):
+                out.append(('cross_host_state', 'Domain=local cookie of h1 sent to h2 (%s)' % q['path']))
             if h.get('authorization') == own:
                 out.append(('cross_host_state', 'URL credentials of h1 sent to h2 (%s)' % q['path']))
             if '@' in (h.get('referer') or '').partition('://')[2].split('/')[0]:
@@ -660,6 +952,11 @@ def correspondence(ctx):
     pick = [i for i in (0, 1, 2, len(cases) // 2, len(cases) - 1)]
     e2e_n, e2e_nt, e2e_viol, e2e_dis, e2e_samples = _e2e(ctx)
     disagreements += e2e_dis
+    ck_sc, ck_res, ck_viol, ck_dis, ck_stats = _cookie_stage(ctx, 400 if not ctx.thorough else 6000)
+    disagreements += ck_dis
+    if not ck_stats['cookies_sent_to_other_host_legitimately']:
+        disagreements.append({'note': 'cookie stage is vacuous: no cookie ever travelled to a sibling host'})
+    dist['cookie_stage'] = ck_stats
     dist['e2e_crawls'] = e2e_n
     dist['e2e_crawls_crossing_hosts_with_state'] = e2e_nt
     return {
@@ -679,7 +976,7 @@ def correspondence(ctx):
                            'base_ok_failed_cases(outside: user-supplied Host/Cookie/Authorization headers)': dist['outside_base_ok'],
                            'jar_answers_checked_for_CRLF': dist['jar_answers']},
         'disagreements': disagreements,
-        'impl_violations': _violations(cases, results) + e2e_viol,
+        'impl_violations': _violations(cases, results) + e2e_viol + ck_viol,
     }
 
 
@@ -690,11 +987,14 @@ def search(ctx, disagreements):
     r = common.rng('c16-search')
     cases += seed_cases() + [gen_case(r) for _ in range(15000)]
     results, _ = _impl(cases)
-    return _violations(cases, results) + _e2e(ctx)[2]
+    return _violations(cases, results) + _e2e(ctx)[2] + _cookie_stage(ctx, 1500)[2]
 
 
 def replay(ctx, data):
     case = data['case']
+    if 'cookie_scenario' in case:
+        out = common.run_impl('c16_cookie_impl.py', {'cases': [case['cookie_scenario']]})
+        return bool(check_cookie_scenario(case['cookie_scenario'], out['results'][0])[0])
     if 'e2e' in case:
         from harness.fakes import crawl
         code, v = case['e2e']
